@@ -2633,7 +2633,8 @@ int find_disable_processing_comment_marker(const UncText &text,
        *  update the position to the start of the current line
        */
       while (  idx > 0
-            && text[idx - 1] != '\n')
+            && text[idx - 1] != '\n'
+            && text[idx - 1] != '\r')
       {
          --idx;
       }
@@ -2688,7 +2689,8 @@ int find_enable_processing_comment_marker(const UncText &text,
       if (idx >= 0)
       {
          while (  idx < int(text.size())
-               && text[idx] != '\n')
+               && text[idx] != '\n'
+               && text[idx] != '\r')
          {
             ++idx;
          }
